@@ -28,12 +28,15 @@ class Handle:
                 pass
 
 
-def make_sqlite(url='sqlite://'):
-    from sqlalchemy import create_engine
+def make_sqlite(url='sqlite://', on_connect=None):
+    from sqlalchemy import create_engine, event
     from sqlalchemy.orm import sessionmaker, scoped_session
     from vakt.storage.sql import SQLStorage
     from vakt.storage.sql.model import Base
     eng = create_engine(url)
+    if on_connect is not None:
+        # registered before the first connection is made: an in-memory database lives in its connection
+        event.listens_for(eng, 'connect')(on_connect)
     Base.metadata.create_all(eng)
     ses = scoped_session(sessionmaker(bind=eng))
     st = SQLStorage(ses)
@@ -68,7 +71,8 @@ def key_of(uid):
     return 's' + uid if isinstance(uid, str) else 'i%d' % uid
 
 
-def tagged_policy(key, tag, bad=None, fixed_desc=False, empty_elem=False, ctx_rule=False, no_resources=False):
+def tagged_policy(key, tag, bad=None, fixed_desc=False, empty_elem=False, ctx_rule=False, no_resources=False,
+                  rule_kind=False):
     from vakt.policy import Policy
     # fixed_desc: every policy of the history carries the same description, so that an update changes nothing
     # but the elements (the tag is then read off the action)
@@ -93,7 +97,13 @@ def tagged_policy(key, tag, bad=None, fixed_desc=False, empty_elem=False, ctx_ru
     if ctx_rule:
         from vakt.rules.operator import Eq
         context = {'k': Eq(tag)}          # a Rule object inside the policy (must stay one wherever the policy is kept)
-    return Policy(uid, actions=['a%d' % tag], subjects=subjects, resources=resources, effect='allow', description=desc,
+    actions = ['a%d' % tag]
+    if rule_kind and bad is None:
+        # the same policy defined with rules instead of strings: an update may turn a string-based policy into a
+        # rule-based one and back (the storage has to follow with everything it derives from the kind)
+        from vakt.rules.operator import Eq
+        subjects, resources, actions = [Eq(x) for x in subjects], [Eq(x) for x in resources], [Eq('a%d' % tag)]
+    return Policy(uid, actions=actions, subjects=subjects, resources=resources, effect='allow', description=desc,
                   context=context)
 
 
@@ -119,8 +129,21 @@ def _ctx_ok(ctx, tagtext):
     return list(ctx) == ['k'] and type(ctx['k']) is Eq and str(ctx['k'].val) == tagtext
 
 
+class _View:
+    """a rule-kind tagged policy seen through its Eq arguments"""
+
+    def __init__(self, p):
+        self.__dict__.update(uid=p.uid, description=p.description, effect=p.effect, context=p.context,
+                             subjects=[e.val for e in p.subjects], resources=[e.val for e in p.resources],
+                             actions=[e.val for e in p.actions])
+
+
 def render_policy(p):
     try:
+        from vakt.rules.operator import Eq
+        els = list(p.subjects) + list(p.resources) + list(p.actions)
+        if els and all(type(e) is Eq for e in els) and p.type == 2:
+            p = _View(p)
         key = key_of(p.uid)
         d = p.description
         if d == 'tX' and len(list(p.actions)) == 1 and isinstance(p.actions[0], str) and \
@@ -155,13 +178,14 @@ def do_op(st, backend, op):
     empty = len(op) > 4 and 'E' in op[4]
     ctxr = len(op) > 4 and 'R' in op[4]
     nores = len(op) > 4 and 'N' in op[4]
+    rkind = len(op) > 4 and 'K' in op[4]
     try:
         objs = st.__dict__.setdefault('_vf_objs', {})
     except Exception:  # noqa
         objs = {}
     try:
         if kind == 'add':
-            p = tagged_policy(op[1], op[2], bad_kind(backend, op) if op[3] else None, fixed, empty, ctxr, nores)
+            p = tagged_policy(op[1], op[2], bad_kind(backend, op) if op[3] else None, fixed, empty, ctxr, nores, rkind)
             st.add(p)
             objs[op[1]] = p
             return 'ok'
@@ -170,7 +194,7 @@ def do_op(st, backend, op):
             st.add(objs[op[1]])
             return 'ok'
         if kind == 'update':
-            p = tagged_policy(op[1], op[2], bad_kind(backend, op) if op[3] else None, fixed, empty, ctxr, nores)
+            p = tagged_policy(op[1], op[2], bad_kind(backend, op) if op[3] else None, fixed, empty, ctxr, nores, rkind)
             st.update(p)
             objs[op[1]] = p
             return 'ok'
@@ -243,6 +267,12 @@ def e_op(op):
     raise ValueError(op)
 
 
+def kind_flag(rng, flags):
+    """per operation: K = the policy is handed over in its rule-based form (string-based otherwise)"""
+    f = flags + ('K' if rng.random() < 0.25 else '')
+    return [f] if f else []
+
+
 def gen_ops(rng, backend, n, keys, allow_bad=True, mut_share=0.6, readd=True):
     """a history; returns ops; tags are unique per generated policy"""
     ops = []
@@ -264,7 +294,7 @@ def gen_ops(rng, backend, n, keys, allow_bad=True, mut_share=0.6, readd=True):
         elif r < mut_share * 0.45:
             tag += 1
             bad = allow_bad and backend in BAD_ADD and k not in present and rng.random() < 0.15
-            ops.append(['add', k, tag, bad] + fixed)
+            ops.append(['add', k, tag, bad] + kind_flag(rng, flags))
             if not bad:
                 if k not in present:
                     obj[k] = tag
@@ -272,7 +302,7 @@ def gen_ops(rng, backend, n, keys, allow_bad=True, mut_share=0.6, readd=True):
         elif r < mut_share * 0.75:
             tag += 1
             bad = allow_bad and backend in BAD_UPDATE and k in present and rng.random() < 0.2
-            ops.append(['update', k, tag, bad] + fixed)
+            ops.append(['update', k, tag, bad] + kind_flag(rng, flags))
             if not bad:
                 obj[k] = tag
         elif r < mut_share:
@@ -305,14 +335,11 @@ def make_config(name):
         # the storage told its dialect is mysql.  Exercises vakt's query construction and the stored *_regex
         # columns, not MySQL's regex engine.
         import re
-        from sqlalchemy import event
-        h = make_sqlite()
 
-        @event.listens_for(h.extra['engine'], 'connect')
         def _reg(dbapi_con, _rec):
             dbapi_con.create_function('REGEXP', 2, lambda pattern, value: value is not None and pattern is not None
                                       and re.search(pattern, value) is not None)
-        h.extra['engine'].dispose()
+        h = make_sqlite(on_connect=_reg)
         h.storage.dialect = 'mysql'
         h.extra['direct'] = h.storage
         return h
@@ -337,10 +364,26 @@ def make_config(name):
     raise ValueError(name)
 
 
-def load_policies(h, pols):
-    """store policies in the underlying backend, then finish wrappers that populate at construction"""
+def predecessor(pol):
+    """an unrelated policy of the OTHER kind under the same uid (what the uid held before an update)"""
+    from vakt.policy import Policy
+    from vakt.rules.operator import Eq
+    strings = all(isinstance(e, str) for f in ('subjects', 'resources', 'actions') for e in getattr(pol, f))
+    return Policy(pol.uid, effect='deny', description='predecessor',
+                  subjects=[Eq('old-s')] if strings else ['old-s', '<old.*>'],
+                  resources=[Eq('old-r'), Eq(1)] if strings else ['old-r'],
+                  actions=[{'k': Eq('old-a')}] if strings else ['old-a'], context={'old': Eq(1)})
+
+
+def load_policies(h, pols, via_update=False):
+    """store policies in the underlying backend, then finish wrappers that populate at construction.
+    via_update: every uid first holds a predecessor of the other kind and is then written with update()"""
     for p in pols:
-        h.extra['direct'].add(p)
+        if via_update:
+            h.extra['direct'].add(predecessor(p))
+            h.extra['direct'].update(p)
+        else:
+            h.extra['direct'].add(p)
     if h.extra.get('enfold_pending'):
         h.storage = h.storage_factory()
         h.extra['enfold_pending'] = False
